@@ -1,6 +1,7 @@
 package checks
 
 import (
+	"github.com/jsightapi/jsight-api-go-library/kit"
 	"bufio"
 	"bytes"
 	"fmt"
@@ -43,6 +44,9 @@ func init() {
 			{Name: "cuts", N: constN(3000, 100000), Gen: genModelCase, Eval: c08EvalCuts},
 			{Name: "names", Stream: c08StreamNames, Eval: c08EvalName},
 			{Name: "targets", N: constN(400, 6000), Gen: c08GenTarget, Eval: c08EvalTarget},
+			{Name: "projects-open-together", N: constN(300, 6000), Gen: func(r *xrand.Rand, idx int, tier string) *fw.Case {
+				return &fw.Case{Docs: []run.Doc{{}}}
+			}, Eval: c08EvalOpenTogether},
 			{Name: "shared-file", N: constN(1200, 40000), Gen: func(r *xrand.Rand, idx int, tier string) *fw.Case {
 				return &fw.Case{Docs: []run.Doc{{}}}
 			}, Eval: c08EvalShared},
@@ -89,9 +93,27 @@ func c08EvalCuts(t *fw.T, c *fw.Case) {
 	ss := r.Uint64()
 	st.R = xrand.New(ss)
 	plan := &cutPlan{seed: r.Uint64(), density: r.Range(2, 5), maxDepth: t.Pick(3, 6)}
+	stray_ := false
+	if c.Index%4 == 3 && len(m.Blocks) > 1 {
+		// a directive that may be out of place where it stands (whether it is depends on what stands in front of it,
+		// cut out or not): the verdict of the cut project is the verdict of the text in one piece
+		stray := []string{"404 any\n", "Headers\n  {\"h\": \"v\"}\n", "Body any\n", "Query\n  {}\n", "Request any\n", "BaseUrl \"https://stray/\"\n", "Version 9\n", "Title \"stray\"\n", "Result\n  {}\n", "Protocol json-rpc-2.0\n"}[r.Intn(10)]
+		pos := r.Range(1, len(m.Blocks))
+		nb := append([]*gen.Block{}, m.Blocks[:pos]...)
+		nb = append(nb, &gen.Block{Kind: "raw", Name: stray})
+		m = &gen.Model{Blocks: append(nb, m.Blocks[pos:]...)}
+		t.Count("cuts_with_a_stray_directive")
+		stray_ = true
+	}
 	cut := gen.RenderWith(m, gen.RenderOpts{Style: st, Paste: plan.hook, RepeatIncludeNames: c.Index%2 == 0})
 	stCopy.R = xrand.New(ss)
 	whole := gen.RenderWith(m, gen.RenderOpts{Style: &stCopy})
+	if stray_ {
+		// where a stray directive lands depends on every parenthesis in front of it: both forms in the plain style, in
+		// which the two texts differ by the cuts only
+		cut = gen.RenderWith(m, gen.RenderOpts{Paste: plan.hook, RepeatIncludeNames: c.Index%2 == 0})
+		whole = gen.RenderWith(m, gen.RenderOpts{})
+	}
 	if len(cut.Files) == 0 {
 		t.Count("no_cut_site")
 		return
@@ -183,6 +205,69 @@ func keysOf(m map[string]string) []string {
 		out = append(out, k)
 	}
 	return out
+}
+
+// c08EvalOpenTogether: two or three projects in different directories, with included files of the same names and
+// different contents, are all opened before the first is processed (a service that keeps projects open; a tool that
+// collects, then validates). Every project must read its own files: the result equals the one it gives alone, and the
+// working directory of the process is not touched.
+func c08EvalOpenTogether(t *fw.T, c *fw.Case) {
+	r := xrand.Derive(t.Seed, c.Index, "C08", "together")
+	n := r.Range(2, 3)
+	var docs []run.Doc
+	for i := 0; i < n; i++ {
+		inc := []string{"inc.jst", "parts/inc.jst", "types.jst"}[c.Index%3]
+		files := map[string][]byte{
+			"main.jst": []byte(fmt.Sprintf("JSIGHT 0.3\nINCLUDE %s\nGET /p%d\n  200 @t%d\n", inc, i, i)),
+			inc:        []byte(fmt.Sprintf("TYPE @t%d\n{\"project\": %d}\n", i, i)),
+		}
+		if r.Chance(1, 3) { // a second level
+			files[inc] = []byte(fmt.Sprintf("INCLUDE deeper.jst\nTYPE @t%d\n{\"project\": %d, \"d\": @d%d}\n", i, i, i))
+			files[filepath.ToSlash(filepath.Join(filepath.Dir(inc), "deeper.jst"))] = []byte(fmt.Sprintf("TYPE @d%d\n\"deep %d\"\n", i, i))
+		}
+		docs = append(docs, run.Doc{Files: files, Root: "main.jst", OnDisk: true})
+	}
+	c.Docs = docs
+	var solo []*run.Obs
+	var dirs []string
+	for _, d := range docs {
+		o := t.Exec(d)
+		solo = append(solo, o)
+		dirs = append(dirs, o.Dir)
+		if o.Outcome != run.Accepted {
+			t.Violation("valid-project-rejected:"+outcomeSig(o), fmt.Sprintf("%s\n%s", describe(o), d.Files["main.jst"]))
+			return
+		}
+	}
+	wd0, _ := os.Getwd()
+	var open []kit.JApi
+	for i := range docs {
+		j, err := kit.NewJapi(filepath.Join(dirs[i], "main.jst"))
+		if err != nil {
+			t.Violation("open-together:new-error", err.Error())
+			return
+		}
+		open = append(open, j)
+	}
+	order := r.Perm(n)
+	t.Count("projects_open_together")
+	for _, i := range order {
+		je := open[i].ValidateJAPI()
+		if je != nil {
+			t.Violation("open-together:verdict-differs", fmt.Sprintf("project %d of %d (all opened before any was processed) is rejected: %s; alone it is accepted\n%s", i, n, je.Error(), docs[i].Files["main.jst"]))
+			break
+		}
+		b, _ := open[i].ToJson()
+		if string(b) != string(solo[i].JSON) {
+			t.Violation("open-together:catalog-differs", fmt.Sprintf("project %d of %d (all opened before any was processed) gives another catalog than alone\n--- together\n%s\n--- alone\n%s", i, n, fw.Short(b, 500), fw.Short(solo[i].JSON, 500)))
+			break
+		}
+	}
+	if wd1, _ := os.Getwd(); wd1 != wd0 {
+		_ = os.Chdir(wd0)
+		t.Violation("working-directory-changed", fmt.Sprintf("processing a project changed the working directory of the process from %s to %s", wd0, wd1))
+	}
+	t.Distinct(fmt.Sprintf("open together n%d", n))
 }
 
 // ---- names ----
